@@ -5,4 +5,5 @@ let table : (string * (val0 -> val0)) list = [
   "chk_c19_dispatch", chk_c19_dispatch;
   "chk_c19_mdquery", chk_c19_mdquery;
   "chk_c06", chk_c06;
+  "chk_c14", chk_c14;
 ]
